@@ -196,7 +196,7 @@ fn one<S: SX, V: VX>(ctx: &mut Ctx, b: u32, m: u32, s: u32, offline: bool, items
 
 fn skewed<S: SX, V: VX>(ctx: &mut Ctx, thorough: bool) {
     // heavily skewed high bits and more pairs than the 1024-entry read buffer of the on-disk splitter
-    let configs: &[(u32, u32, u32)] = if thorough { &[(0, 0, 0), (2, 4, 3), (4, 2, 2), (3, 3, 0), (8, 16, 3), (8, 16, 0), (1, 16, 1), (8, 10, 10)] } else { &[(2, 4, 3), (4, 2, 2), (8, 16, 3)] };
+    let configs: &[(u32, u32, u32)] = if thorough { &[(0, 0, 0), (2, 4, 3), (4, 2, 2), (3, 3, 0), (8, 16, 3), (8, 16, 0), (1, 16, 1), (8, 10, 10)] } else { &[(2, 4, 3), (4, 2, 2), (8, 16, 3), (8, 16, 0), (8, 16, 1), (8, 16, 4), (0, 16, 2), (1, 16, 1), (3, 16, 4)] };
     for &(b, m, s) in configs {
         let cb = b.max(m).max(1).min(10);
         for (nm, n, f) in [
